@@ -563,6 +563,62 @@ def prefix_scenario(head):
   return scenario
 
 
+def score_scenario(kind):
+  """AutoQKHyperModel.adjusted_score: the score handed to the tuner is metric * (1 + delta) for every metric value and
+  every bonus.  kind: 'callable' (user metric function) | 'acc_binary' | 'acc_sparse' | 'acc_categorical' | 'default'
+  (metric_function=None -> accuracy) | 'other_string'.  The Keras accuracy functions are replaced by contracts returning a
+  distinct symbolic value each, so the clause also pins WHICH accuracy is taken for the label / prediction shapes."""
+  def scenario(ip):
+    s = Scen()
+    cls = ip.find(AQ)
+    mod = ip.get_module("qkeras.autoqkeras.autoqkeras_internal")
+    vals = {}
+    for n in ("binary_accuracy", "sparse_categorical_accuracy", "categorical_accuracy", "user_metric"):
+      v = z3.Real("m_" + n)
+      s.vars["m_" + n] = v
+      ip.assume(z3.And(v >= 0, v <= 1))
+      vals[n] = v
+    calls = []
+
+    def metric(n):
+      def f(ip_, yt, yp):
+        calls.append((n, yt, yp))
+        return SNum(vals[n], "float")
+      return Builtin(n, f)
+    for n in ("binary_accuracy", "sparse_categorical_accuracy", "categorical_accuracy"):
+      ip.setattr(mod, n, metric(n))
+    d = z3.Real("delta")
+    s.vars["delta"] = d
+    ip.assume(z3.And(d >= -8, d <= 8))
+
+    def tensor(shape):
+      shp = Obj(ExtClass("TensorShape"), {"as_list": Builtin("as_list", lambda ip_: list(shape))})
+      return Obj(ExtClass("Tensor"), {"shape": shp})
+    shapes = {"callable": ((None, 10), (None, 10)), "acc_binary": ((None, 1), (None, 1)),
+              "acc_sparse": ((None, 1), (None, 10)), "acc_sparse_rank": ((None,), (None, 10)),
+              "acc_categorical": ((None, 10), (None, 10)), "default": ((None, 10), (None, 10)),
+              "other_string": ((None, 1), (None, 1))}[kind]
+    yt, yp = tensor(shapes[0]), tensor(shapes[1])
+    mf = {"callable": metric("user_metric"), "default": None, "other_string": "top_k"}.get(kind, "accuracy")
+    want = {"callable": "user_metric", "acc_binary": "binary_accuracy", "acc_sparse": "sparse_categorical_accuracy",
+            "acc_sparse_rank": "sparse_categorical_accuracy", "acc_categorical": "categorical_accuracy",
+            "default": "categorical_accuracy", "other_string": "categorical_accuracy"}[kind]
+    r = run_call(ip, ip.getattr(cls, "adjusted_score"), [None, SNum(d, "float"), mf])
+    s.claim("no_raise", r[0] == "return")
+    if r[0] != "return":
+      s.info["raised"] = str(r[1])
+      return s
+    r2 = run_call(ip, r[1], [yt, yp])
+    s.claim("score_no_raise", r2[0] == "return")
+    if r2[0] != "return":
+      s.info["raised"] = str(r2[1])
+      return s
+    s.claim("metric_called_once_on_the_pair", len(calls) == 1 and calls[0][1] is yt and calls[0][2] is yp)
+    s.claim("metric_times_one_plus_delta", Q.num_value(r2[1]) == vals[want] * (1 + d))
+    return s
+  return scenario
+
+
 def bounds(vars_):
   return [v <= 16 for k, v in vars_.items() if isinstance(v, z3.ArithRef) and v.sort() == z3.IntSort()]
 
@@ -572,6 +628,10 @@ def cases(tier):
   for k in ("QDense_both", "QDense_nobiasq", "Dense", "QConv2D_qact", "QActivation_q", "Activation_softmax", "InputLayer",
             "Activation_relu", "Activation_linear", "Dense_relu", "QDense_unquantized_act"):
     out.append(Case(PROP, FB + "._param_size", k, size_scenario(k), bounds=bounds, replay_kind=None, assumptions=ASSUME))
+  for k in ("callable", "acc_binary", "acc_sparse", "acc_sparse_rank", "acc_categorical", "default", "other_string"):
+    out.append(Case(PROP, AQ + ".adjusted_score", k, score_scenario(k), replay_kind=None,
+                    assumptions=ASSUME + ["binary / sparse_categorical / categorical_accuracy replaced by contracts (one "
+                                          "symbolic value in [0, 1] each); K.cast to floatx is the identity on reals (A1)"]))
   for lk in ("class_numeric", "class_list", "pattern", "absent"):
     for head in ("kernel_quantizer", "bias_quantizer", "activation"):
       out.append(Case(PROP, AQ + "._get_quantizer", "%s_%s" % (lk, head), limit_scenario(lk, head), bounds=bounds,
